@@ -74,11 +74,11 @@ theorem step_net_flush_undec (cfg : Cfg) (s s1 : St) (h : s.npc = .inFlush) (hf 
     step cfg s .net = { s1 with flushHeld := false, npc := .idle, up := s1.up ++ [.raised] } := by
   simp [step, h, hf]
 
-theorem step_disconnect (s : St) (h : s.npc = .idle) :
+theorem step_disconnect (s : St) (h : s.npc = .idle ∨ s.npc = .inFlush) :
     step { freshQueue := true, freshProtocol := true, segReset := true } s .disconnect =
       { s with live := false, curP := s.protos.length, protos := s.protos ++ [{}], curQ := s.queues.length,
                queues := s.queues ++ [(s.queues.length, [])] } := by
-  simp [step, h]
+  rcases h with h | h <;> simp [step, h]
 
 theorem step_worker_none (cfg : Cfg) (s : St) (i : Nat) (h : s.workers[i]? = none) : step cfg s (.worker i) = s := by
   simp [step, h]
